@@ -12,6 +12,7 @@ import time
 from asyncio import Future, ensure_future, gather, iscoroutine, sleep
 from binascii import hexlify, unhexlify
 from collections import Counter, defaultdict
+from ipaddress import IPv6Address, ip_address
 from struct import error as struct_error
 from struct import pack
 from traceback import format_exception
@@ -1091,10 +1092,24 @@ class TunnelCommunity(Community):
         # It is not our circuit so we got it from a relay, we need to EXIT it!
         else:
             self.logger.debug("Data for circuit %d exiting tunnel (%s)", circuit_id, destination)
-            if destination != ("0.0.0.0", 0):
+            if destination != ("0.0.0.0", 0) and not self.is_mapped_null_address(destination):
                 self.exit_data(circuit_id, sock_addr, destination, data)
             else:
                 self.logger.warning("Cannot exit data, destination is 0.0.0.0:0")
+
+    @staticmethod
+    def is_mapped_null_address(destination: Address) -> bool:
+        """
+        Check if the given destination is 0.0.0.0:0 written as an IPv4-mapped IPv6 address (``::ffff:0.0.0.0``): on the
+        dual-stack socket of an exit that is the very same destination.
+        """
+        if destination[1] != 0:
+            return False
+        try:
+            ip = ip_address(destination[0])
+        except ValueError:
+            return False
+        return isinstance(ip, IPv6Address) and ip.ipv4_mapped is not None and ip.ipv4_mapped.is_unspecified
 
     @unpack_cell(PingPayload)
     def on_ping(self, source_address: Address, payload: PingPayload, _: int | None) -> None:
